@@ -16,6 +16,10 @@ Entry: run_ctl(tier, seed) -> dict(mc, behaviours, violations, drift, per_action
 from __future__ import annotations
 
 import multiprocessing as mp
+import os
+import re
+import shutil
+import tempfile
 import time
 from collections import Counter
 from typing import Any, Dict, List, Tuple
@@ -23,7 +27,11 @@ from typing import Any, Dict, List, Tuple
 from .. import engine, tlc
 
 MODULE = "LoggerCtl"
-NUM = {"quick": 75, "thorough": 1250}      # per TLC simulation worker (engine.gen_behaviours runs 4 workers)
+NUM = {"quick": 150, "thorough": 1250}     # per TLC simulation worker (engine.gen_behaviours runs 4 workers): about 600 / 5000 behaviours
+DEEP_MSGS = 10                             # thorough: the exhaustive check once more with a longer script (about 12 M states, 4 min)
+# invariants / properties of LoggerCtl.tla that the CODE violates (documented there, not in LoggerCtl.cfg)
+KNOWN_VIOLATED = (("NoSubscriptionCrash", "INVARIANT"), ("NoIndexCrash", "INVARIANT"), ("NoAttributeCrash", "INVARIANT"),
+                  ("AllOnlyWhileRecording", "INVARIANT"), ("NoDebris", "INVARIANT"), ("NoPausedWhileIdle", "PROPERTY"))
 DEPTH = 40
 JOBS = 14
 
@@ -32,9 +40,9 @@ def _one(beh):
     from .. import loggerctl_drv as drv
     try:
         r = drv.replay(beh)
-        return {"verdicts": r["verdicts"], "harness": None}
+        return {"verdicts": r["verdicts"], "harness": None, "src": drv.SRC}
     except drv.HarnessError as e:
-        return {"verdicts": [], "harness": f"{e}"}
+        return {"verdicts": [], "harness": f"{e}", "src": drv.SRC}
 
 
 def replay_all(behs: List[dict]) -> List[dict]:
@@ -65,11 +73,53 @@ def action_counts(behs: List[dict]) -> Dict[str, int]:
     return dict(sorted(c.items()))
 
 
+def _cfg_head() -> str:
+    base = open(os.path.join(tlc.SPEC_DIR, MODULE + ".cfg")).read()
+    return base[:base.index("INVARIANT")]
+
+
+def counterexamples() -> Dict[str, str]:
+    """TLC's shortest scripts for the properties the code is known to violate (name -> "ADDC:two START START")"""
+    d = tempfile.mkdtemp(prefix="lctl_")
+    out = {}
+    try:
+        for inv, kind in KNOWN_VIOLATED:
+            p = os.path.join(d, inv + ".cfg")
+            with open(p, "w") as f:
+                f.write(_cfg_head() + f"{kind} {inv}\nVIEW View\nCHECK_DEADLOCK FALSE\n")
+            r = tlc.run_tlc(MODULE, p, workers=1, timeout=900)
+            script = []
+            for x in re.findall(r"last = \[([^\]]*)\]", r["out"].replace("\n", " ")):
+                m = dict(re.findall(r'(\w+) \|-> "([^"]*)"', x))
+                if m.get("k"):
+                    script.append(m["k"] + (":" + m["v"] if m.get("v") else ""))
+            out[inv] = " ".join(script) if r["violation"] else "(not violated)"
+    finally:
+        shutil.rmtree(d, ignore_errors=True)
+    return out
+
+
+def deep_check() -> Dict[str, Any]:
+    d = tempfile.mkdtemp(prefix="lctl_")
+    try:
+        base = open(os.path.join(tlc.SPEC_DIR, MODULE + ".cfg")).read()
+        p = os.path.join(d, "deep.cfg")
+        with open(p, "w") as f:
+            f.write(re.sub(r"MaxMsgs = \d+", f"MaxMsgs = {DEEP_MSGS}", base))
+        mc = engine.model_check(MODULE, p, timeout=3000)
+    finally:
+        shutil.rmtree(d, ignore_errors=True)
+    if mc["violation"]:
+        raise tlc.TlcError(f"{MODULE} (MaxMsgs = {DEEP_MSGS}) violated: {mc['violation']}\n{mc['out'][-3000:]}")
+    return {k: mc.get(k) for k in ("states", "distinct", "depth", "wall_s", "violation", "finished")}
+
+
 def run_ctl(tier: str, seed: int) -> Dict[str, Any]:
     t0 = time.time()
     mc = engine.model_check(MODULE, MODULE + ".cfg", timeout=900)
     if mc["violation"]:
         raise tlc.TlcError(f"{MODULE}.cfg violated: {mc['violation']}\n{mc['out'][-3000:]}")
+    deep = deep_check() if tier != "quick" else None
     t1 = time.time()
     behs = engine.gen_behaviours(MODULE, MODULE + "_Gen.cfg", num=NUM["quick" if tier == "quick" else "thorough"], depth=DEPTH, seed=seed + 17,
                                  timeout=900)
@@ -80,14 +130,18 @@ def run_ctl(tier: str, seed: int) -> Dict[str, Any]:
     t3 = time.time()
     viol: List[Tuple[str, str, dict]] = []
     drift: List[Tuple[str, str, dict]] = []
+    seen: set = set()
     for b, r in zip(behs, results):
         if r["harness"]:
             from ..loggerctl_drv import HarnessError
             raise HarnessError(r["harness"])
         slim = {"steps": [{"i": s["i"], "k": s["k"], "v": s["v"]} for s in b["steps"]]}
         for sig, detail in r["verdicts"]:
-            (viol if sig.startswith("C17/") else drift).append((sig, detail, slim))
-    return {"mc": {k: mc.get(k) for k in ("states", "distinct", "depth", "wall_s", "violation", "finished")},
+            # the complete behaviour (expected replies, states, content) with the first occurrence of a signature, the script with the others
+            first = sig not in seen
+            seen.add(sig)
+            (viol if sig.startswith("C17/") else drift).append((sig, detail, b if first else slim))
+    return {"mc": {k: mc.get(k) for k in ("states", "distinct", "depth", "wall_s", "violation", "finished")}, "mc_deep": deep,
             "behaviours": len(behs), "violations": viol, "drift": drift, "per_action_counts": action_counts(behs),
             "wall": {"mc_s": round(t1 - t0, 1), "gen_s": round(t2 - t1, 1), "replay_s": round(t3 - t2, 1), "total_s": round(t3 - t0, 1)}}
 
@@ -108,7 +162,7 @@ if __name__ == "__main__":
             engine.say("HARNESS:", e)
             sys.exit(2)
         raise
-    engine.say(json.dumps({k: res[k] for k in ("mc", "behaviours", "wall", "per_action_counts")}, indent=1))
+    engine.say(json.dumps({k: res[k] for k in ("mc", "mc_deep", "behaviours", "wall", "per_action_counts")}, indent=1))
     for name in ("violations", "drift"):
         sigs = Counter(s for s, _, _ in res[name])
         engine.say(f"{name}: {len(res[name])}")
